@@ -231,6 +231,17 @@ def plain_minimal(name):
     return [x for val, ts in zip(mv["mand"], [q for q in t["slots"] if q["mand"]]) for x in _enc_slot(val, ts)]
 
 
+def encode_value(name, w):
+    """octets of a message value (table-driven; optional elements in table order, half-octet elements as one octet)"""
+    t = TBL[name]; out = []
+    for val, ts in zip(w["mand"], [q for q in t["slots"] if q["mand"]]):
+        out += _enc_slot(val, ts)
+    for val, ts in zip(w["opt"], [q for q in t["slots"] if not q["mand"]]):
+        if not val["p"]: continue
+        out += [val["v"][0]] if ts["half"] else [ts["iei"]] + _enc_slot(val, ts)
+    return out
+
+
 def container_slots(name):
     """names of the elements of a message that carry another message or an arbitrary octet string of up to 64 KiB"""
     return [s["name"] for s in TBL[name]["slots"] if s["lsz"] == 2 and s["data"] == "buf" and s["max"] >= 65535
